@@ -1,0 +1,17 @@
+//go:build verif
+
+// Contracts read by /verif/govc (comment-only; never compiled into the node).
+
+package types
+
+//@ func (*Encoder).EncodeUint
+//@   props C12
+//@   spec nat.smt2
+//@   ensures [cases spec.nat_l(value) 0..8] canonical: result1 == nil && len(result0) == int(spec.nat_len(value)) && forall(i, 0, 9, i < len(result0) ==> result0[i] == spec.nat_byte(value, uint64(i)))
+
+//@ func (*Decoder).DecodeUint
+//@   props C12 C13 C14
+//@   spec nat.smt2
+//@   ensures [cases spec.nat_l(result0) 0..8] strict: result1 == nil ==> len(data) >= int(spec.nat_len(result0)) && forall(i, 0, 9, i < int(spec.nat_len(result0)) ==> data[i] == spec.nat_byte(result0, uint64(i)))
+//@   ghost x uint64
+//@   ensures [cases spec.nat_l(x) 0..8] complete: (len(data) >= int(spec.nat_len(x)) && forall(i, 0, 9, i < int(spec.nat_len(x)) ==> data[i] == spec.nat_byte(x, uint64(i)))) ==> (result1 == nil && result0 == x)
